@@ -59,7 +59,13 @@ type ChanV struct{ Obj int }
 type Struct struct{ F []Value }
 
 // Array: generic array value (cells of arbitrary values, concrete length).
-type Array struct{ Cells []Value }
+// Array: generic array value. Partial marks the backing store of a slice made with a symbolic
+// length above partialMakeLimit: only the first len(Cells) elements are materialised, and any access
+// beyond them ends the path as unsupported (never silently wrong).
+type Array struct {
+	Cells   []Value
+	Partial bool
+}
 
 // SArray: scalar array value (elements are BV of width W); length N may be symbolic.
 type SArray struct {
